@@ -671,6 +671,9 @@ func nilnessOn(fn *ssa.Function, v ssa.Value, pred *ssa.BasicBlock) int {
 
 func threadContinuation(F *ssa.Function, K *ssa.BasicBlock) {
 	absorbPhiOnlyPreds(F, K)
+	if splitReturn(F, K) {
+		return
+	}
 	n := len(K.Instrs)
 	if n == 0 || len(K.Succs) != 2 || K.Succs[0] == K.Succs[1] {
 		return
@@ -691,24 +694,24 @@ func threadContinuation(F *ssa.Function, K *ssa.BasicBlock) {
 		return
 	}
 	mid := K.Instrs[len(phis) : n-1]
-	inMid := map[ssa.Instruction]bool{ifi: true}
+	if len(mid) > 12 {
+		return
+	}
+	inK := map[ssa.Instruction]bool{ifi: true}
+	for _, ph := range phis {
+		inK[ph] = true
+	}
 	for _, in := range mid {
-		switch in.(type) {
-		case *ssa.BinOp, *ssa.UnOp:
+		switch x := in.(type) {
+		case *ssa.BinOp, *ssa.Store, *ssa.FieldAddr, *ssa.IndexAddr, *ssa.Field, *ssa.ChangeType, *ssa.ChangeInterface, *ssa.MakeInterface, *ssa.Convert, *ssa.Extract:
+		case *ssa.UnOp:
+			if x.Op.String() == "<-" {
+				return
+			}
 		default:
 			return
 		}
-		inMid[in] = true
-	}
-	// values of mid are used in mid / by the If only
-	for _, in := range mid {
-		if r := in.(ssa.Value).Referrers(); r != nil {
-			for _, u := range *r {
-				if !inMid[u] {
-					return
-				}
-			}
-		}
+		inK[in] = true
 	}
 	isKPhi := func(v ssa.Value) *ssa.Phi {
 		for _, ph := range phis {
@@ -718,27 +721,46 @@ func threadContinuation(F *ssa.Function, K *ssa.BasicBlock) {
 		}
 		return nil
 	}
+	// the value v stands for when K is entered from predecessor i (phis resolved, stores in K forwarded to loads in K)
+	var resolve func(v ssa.Value, i int, depth int) ssa.Value
+	resolve = func(v ssa.Value, i int, depth int) ssa.Value {
+		if depth > 6 {
+			return v
+		}
+		if ph := isKPhi(v); ph != nil {
+			return ph.Edges[i]
+		}
+		if ld, ok := v.(*ssa.UnOp); ok && ld.Op.String() == "*" && inK[ld] {
+			var last ssa.Value
+			for _, in := range mid {
+				if in == ssa.Instruction(ld) {
+					break
+				}
+				if st, ok := in.(*ssa.Store); ok && st.Addr == ld.X {
+					last = st.Val
+				}
+			}
+			if last != nil {
+				return resolve(last, i, depth+1)
+			}
+		}
+		return v
+	}
 	var eval func(v ssa.Value, i int) (bool, bool)
 	eval = func(v ssa.Value, i int) (bool, bool) {
-		if ph := isKPhi(v); ph != nil {
-			v = ph.Edges[i]
-			if b, ok := constBool(v); ok {
-				return true, b
-			}
-			return false, false
-		}
+		v = resolve(v, i, 0)
 		switch x := v.(type) {
 		case *ssa.Const:
 			if b, ok := constBool(x); ok {
 				return true, b
 			}
 		case *ssa.UnOp:
-			if x.Op.String() == "!" && inMid[x] {
+			if x.Op.String() == "!" && inK[x] {
 				k, b := eval(x.X, i)
 				return k, !b
 			}
 		case *ssa.BinOp:
-			if !inMid[x] || (x.Op.String() != "==" && x.Op.String() != "!=") {
+			if !inK[x] || (x.Op.String() != "==" && x.Op.String() != "!=") {
 				return false, false
 			}
 			var other ssa.Value
@@ -750,9 +772,7 @@ func threadContinuation(F *ssa.Function, K *ssa.BasicBlock) {
 			default:
 				return false, false
 			}
-			if ph := isKPhi(other); ph != nil {
-				other = ph.Edges[i]
-			}
+			other = resolve(other, i, 0)
 			switch nilnessOn(F, other, K.Preds[i]) {
 			case +1:
 				return true, x.Op.String() == "!="
@@ -762,19 +782,58 @@ func threadContinuation(F *ssa.Function, K *ssa.BasicBlock) {
 		}
 		return false, false
 	}
-	usedOutside := func(ph *ssa.Phi) bool {
-		if r := ph.Referrers(); r != nil {
+	// values defined in K and their uses outside K
+	var kvals []ssa.Value
+	for _, ph := range phis {
+		kvals = append(kvals, ph)
+	}
+	for _, in := range mid {
+		if v, ok := in.(ssa.Value); ok {
+			kvals = append(kvals, v)
+		}
+	}
+	type use struct {
+		in ssa.Instruction
+		at []*ssa.BasicBlock // where the value has to be available
+	}
+	var outside map[ssa.Value][]use
+	computeOutside := func() {
+		outside = map[ssa.Value][]use{}
+		for _, kv := range kvals {
+			r := kv.Referrers()
+			if r == nil {
+				continue
+			}
+			seenU := map[ssa.Instruction]bool{}
 			for _, u := range *r {
-				if !inMid[u] {
-					return true
+				if inK[u] || seenU[u] {
+					continue
+				}
+				seenU[u] = true
+				us := use{in: u}
+				if up, ok := u.(*ssa.Phi); ok {
+					for j, e := range up.Edges {
+						if e == kv {
+							us.at = append(us.at, up.Block().Preds[j])
+						}
+					}
+				} else {
+					us.at = []*ssa.BasicBlock{u.Block()}
+				}
+				if len(us.at) > 0 {
+					outside[kv] = append(outside[kv], us)
 				}
 			}
 		}
-		return false
 	}
-	lifted := map[*ssa.BasicBlock]map[*ssa.Phi]*ssa.Phi{}
+	lifted := map[*ssa.BasicBlock]map[ssa.Value]*ssa.Phi{}
+	var ops [16]*ssa.Value
 	for i := len(K.Preds) - 1; i >= 0; i-- {
+		computeOutside()
 		known, val := eval(ifi.Cond, i)
+		if os.Getenv("SLUGCHECK_DEBUG") != "" {
+			fmt.Fprintf(os.Stderr, "thread %s K=%d pred %d (block %d): known=%v val=%v\n", F.Name(), K.Index, i, K.Preds[i].Index, known, val)
+		}
 		if !known {
 			continue
 		}
@@ -789,16 +848,7 @@ func threadContinuation(F *ssa.Function, K *ssa.BasicBlock) {
 				toK++
 			}
 		}
-		if toK != 1 || P == K || P == S {
-			continue
-		}
-		dupPred := false
-		for _, q := range S.Preds {
-			if q == P {
-				dupPred = true // P already leads to S by its other edge: a second edge would need two phi slots for one predecessor
-			}
-		}
-		if dupPred {
+		if toK != 1 || P == K || S == K {
 			continue
 		}
 		kpos := -1
@@ -810,81 +860,147 @@ func threadContinuation(F *ssa.Function, K *ssa.BasicBlock) {
 		if kpos < 0 {
 			continue
 		}
-		single := len(S.Preds) == 1 || lifted[S] != nil
-		if !single {
-			// S is a join already: a K-phi used beyond K must reach S's subtree through S's own phis only
-			bad := false
-			for _, ph := range phis {
-				if !usedOutside(ph) {
-					continue
-				}
-				for _, u := range *ph.Referrers() {
-					if inMid[u] {
+		single := (len(S.Preds) == 1 && S.Preds[0] == K) || lifted[S] != nil
+		// every outside use of a K value that the new path can reach must lie below S (or be a phi of S on K's edge)
+		reachS := reachAvoiding(S, map[*ssa.BasicBlock]bool{K: true}) // through K the value is defined anew
+		reachS[S] = true
+		safe := true
+		for _, kv := range kvals {
+			for _, us := range outside[kv] {
+				for _, at := range us.at {
+					if up, ok := us.in.(*ssa.Phi); ok && up.Block() == S && at == K {
 						continue
 					}
-					if sp, ok := u.(*ssa.Phi); ok && sp.Block() == S {
+					if !reachS[at] {
 						continue
 					}
-					if blockDominates(S, u.Block()) {
-						bad = true
+					if !single || !blockDominates(S, at) {
+						safe = false
 					}
 				}
-			}
-			if bad {
-				continue
 			}
 		}
-		vals := map[*ssa.Phi]ssa.Value{}
+		if !safe {
+			if os.Getenv("SLUGCHECK_DEBUG") != "" {
+				fmt.Fprintf(os.Stderr, "   not safe (single=%v)\n", single)
+			}
+			continue
+		}
+		// the detour N: K's instructions as they run when K is entered from P
+		N := &ssa.BasicBlock{Comment: K.Comment + ".thread"}
+		setUnexported(N, "parent", F)
+		vals := map[ssa.Value]ssa.Value{}
 		for _, ph := range phis {
 			vals[ph] = ph.Edges[i]
 		}
-		if len(S.Preds) == 1 && lifted[S] == nil {
-			// give S its own phis for what it reads from K's
-			delete(domCache, F)
-			lifted[S] = map[*ssa.Phi]*ssa.Phi{}
-			var newPhis []ssa.Instruction
-			for _, ph := range phis {
-				if !usedOutside(ph) {
+		var clones []ssa.Instruction
+		for _, in := range mid {
+			ni := cloneInstr(in)
+			setUnexported(ni, "block", N)
+			N.Instrs = append(N.Instrs, ni)
+			clones = append(clones, ni)
+			if v, ok := in.(ssa.Value); ok {
+				vals[v] = ni.(ssa.Value)
+			}
+		}
+		for _, ni := range clones {
+			for _, op := range ni.Operands(ops[:0]) {
+				if *op == nil {
 					continue
 				}
-				np := &ssa.Phi{Comment: ph.Comment, Edges: []ssa.Value{ph}}
+				if m, ok := vals[*op]; ok {
+					*op = m
+				}
+				addReferrer(*op, ni)
+			}
+		}
+		j := &ssa.Jump{}
+		setUnexported(j, "block", N)
+		N.Instrs = append(N.Instrs, j)
+		N.Preds = []*ssa.BasicBlock{P}
+		N.Succs = []*ssa.BasicBlock{S}
+		for jx, s := range P.Succs {
+			if s == K {
+				P.Succs[jx] = N
+			}
+		}
+		F.Blocks = append(F.Blocks, N)
+		for idx, b := range F.Blocks {
+			b.Index = idx
+		}
+		if len(S.Preds) == 1 && lifted[S] == nil {
+			// S gets its own phis for the K values read below it
+			delete(domCache, F)
+			lifted[S] = map[ssa.Value]*ssa.Phi{}
+			var newPhis []ssa.Instruction
+			for _, kv := range kvals {
+				need := false
+				for _, us := range outside[kv] {
+					for _, at := range us.at {
+						if blockDominates(S, at) {
+							need = true
+						}
+					}
+				}
+				if !need {
+					continue
+				}
+				np := &ssa.Phi{Comment: kv.Name(), Edges: []ssa.Value{kv}}
 				setUnexported(np, "block", S)
-				setUnexported(np, "typ", ph.Type())
-				setUnexported(np, "pos", ph.Pos())
-				var ops [16]*ssa.Value
-				for _, u := range append([]ssa.Instruction(nil), *ph.Referrers()...) {
-					if inMid[u] || !blockDominates(S, u.Block()) {
+				setUnexported(np, "typ", kv.Type())
+				setUnexported(np, "pos", kv.Pos())
+				for _, us := range outside[kv] {
+					below := false
+					for _, at := range us.at {
+						if blockDominates(S, at) {
+							below = true
+						}
+					}
+					if !below {
 						continue
 					}
-					for _, op := range u.Operands(ops[:0]) {
-						if *op == ssa.Value(ph) {
+					if up, ok := us.in.(*ssa.Phi); ok {
+						for jx, e := range up.Edges {
+							if e == kv && blockDominates(S, up.Block().Preds[jx]) {
+								up.Edges[jx] = np
+							}
+						}
+						still := false
+						for _, e := range up.Edges {
+							if e == kv {
+								still = true
+							}
+						}
+						if !still {
+							removeReferrer(kv, up)
+						}
+						addReferrer(np, up)
+						continue
+					}
+					for _, op := range us.in.Operands(ops[:0]) {
+						if *op == kv {
 							*op = np
 						}
 					}
-					removeReferrer(ph, u)
-					addReferrer(np, u)
+					removeReferrer(kv, us.in)
+					addReferrer(np, us.in)
 				}
-				addReferrer(ph, np)
-				lifted[S][ph] = np
+				addReferrer(kv, np)
+				lifted[S][kv] = np
 				newPhis = append(newPhis, np)
 			}
 			S.Instrs = append(newPhis, S.Instrs...)
 		}
-		// the new edge P → S
-		for j, s := range P.Succs {
-			if s == K {
-				P.Succs[j] = S
-			}
-		}
-		S.Preds = append(S.Preds, P)
+		// the new edge N → S
+		S.Preds = append(S.Preds, N)
 		for _, in := range S.Instrs {
 			sp, ok := in.(*ssa.Phi)
 			if !ok {
 				break
 			}
 			v := sp.Edges[kpos]
-			if ph := isKPhi(v); ph != nil {
-				v = vals[ph]
+			if m, ok := vals[v]; ok {
+				v = m
 			}
 			sp.Edges = append(sp.Edges, v)
 			addReferrer(v, sp)
@@ -906,18 +1022,14 @@ func threadContinuation(F *ssa.Function, K *ssa.BasicBlock) {
 		}
 		delete(domCache, F)
 	}
-	var ops [16]*ssa.Value
-	dropInstr := func(in ssa.Instruction) {
-		for _, op := range in.Operands(ops[:0]) {
-			if *op != nil {
-				removeReferrer(*op, in)
-			}
-		}
-	}
 	if len(K.Preds) == 0 {
 		// K is dead: take it out
 		for _, in := range K.Instrs {
-			dropInstr(in)
+			for _, op := range in.Operands(ops[:0]) {
+				if *op != nil {
+					removeReferrer(*op, in)
+				}
+			}
 		}
 		for _, S := range K.Succs {
 			for j := len(S.Preds) - 1; j >= 0; j-- {
@@ -1184,4 +1296,87 @@ func absorbPhiOnlyPreds(F *ssa.Function, K *ssa.BasicBlock) {
 			break
 		}
 	}
+}
+
+// splitReturn: a continuation that only returns what it merges (`return
+// helper(…)`) is a return in each predecessor, as separate return statements
+// are in go/ssa's own output.
+func splitReturn(F *ssa.Function, K *ssa.BasicBlock) bool {
+	n := len(K.Instrs)
+	if n == 0 {
+		return false
+	}
+	ret, ok := K.Instrs[n-1].(*ssa.Return)
+	if !ok {
+		return false
+	}
+	var phis []*ssa.Phi
+	for _, in := range K.Instrs[:n-1] {
+		ph, ok := in.(*ssa.Phi)
+		if !ok {
+			return false
+		}
+		phis = append(phis, ph)
+	}
+	if len(phis) == 0 || len(K.Preds) < 2 {
+		return false
+	}
+	// the phis feed the return only
+	for _, ph := range phis {
+		if r := ph.Referrers(); r != nil {
+			for _, u := range *r {
+				if u != ssa.Instruction(ret) {
+					return false
+				}
+			}
+		}
+	}
+	for _, P := range K.Preds {
+		if len(P.Succs) != 1 || P == K {
+			return false
+		}
+		if _, ok := P.Instrs[len(P.Instrs)-1].(*ssa.Jump); !ok {
+			return false
+		}
+	}
+	var ops [16]*ssa.Value
+	for i, P := range K.Preds {
+		nr := &ssa.Return{}
+		setUnexported(nr, "block", P)
+		setUnexported(nr, "pos", ret.Pos())
+		for _, v := range ret.Results {
+			for _, ph := range phis {
+				if ssa.Value(ph) == v {
+					v = ph.Edges[i]
+				}
+			}
+			nr.Results = append(nr.Results, v)
+		}
+		for _, op := range nr.Operands(ops[:0]) {
+			if *op != nil {
+				addReferrer(*op, nr)
+			}
+		}
+		P.Instrs[len(P.Instrs)-1] = nr
+		P.Succs = nil
+	}
+	for _, in := range K.Instrs {
+		for _, op := range in.Operands(ops[:0]) {
+			if *op != nil {
+				removeReferrer(*op, in)
+			}
+		}
+	}
+	out := F.Blocks[:0]
+	for _, b := range F.Blocks {
+		if b != K {
+			out = append(out, b)
+		}
+	}
+	F.Blocks = out
+	for i, b := range F.Blocks {
+		b.Index = i
+	}
+	delete(domCache, F)
+	return true
 }
